@@ -127,9 +127,26 @@ pub fn run_hung(fixture_base: &[u8], target: &[u8], patch: &[u8]) -> (Vec<String
                 lines.push(format!("HUNG stage={} call={} ms={} ret={} verdict={}", name, enc_tok(cname), ms, ret.unwrap_or("~".into()), verdict));
             }
         }
+        // updates requested through the background entry point while one is stuck must not queue up behind it:
+        // once the stuck update is released, exactly ONE patch check may have been made in this scenario
+        let started = if HANGING.load(Ordering::SeqCst) {
+            for _ in 0..2 {
+                std::thread::spawn(|| { ROLE.with(|r| r.set(Some(1))); updater::c_api::shorebird_start_update_thread(); }).join().ok();
+            }
+            std::thread::sleep(Duration::from_millis(200));
+            true
+        } else { false };
         *RELEASE.lock().unwrap() = true;
         RELEASE_CV.notify_all();
         let ret = a.join().unwrap_or_else(|_| "panic".into());
+        if started {
+            drain_bg_threads();
+            // patch checks seen since the stuck update began: its own and the one explicit check call above; every
+            // further one comes from an update that had queued up behind the stuck one
+            let checks = NET.lock().unwrap().log.iter().filter(|a| matches!(a, NetAct::Check { .. })).count();
+            let verdict = if checks <= 2 { "ok" } else { bad += 1; "QUEUED" };
+            lines.push(format!("HUNG stage={} call=start_update_thread%20x2 ms=0 ret=patch-checks:{} verdict={}", name, checks, verdict));
+        }
         HANG_STAGE.store(0, Ordering::SeqCst);
         drain_bg_threads();
         lines.push(format!("HUNG stage={} call=the-hung-update ms=0 ret={} verdict=ok", name, ret));
